@@ -76,6 +76,25 @@ def main() -> int:
     wt = tmp / "wt"
     sh(["git", "-C", "/repo", "worktree", "add", "--detach", str(wt), "HEAD"])
     rows, bad = [], 0
+    baseline: dict = {}
+
+    def run_check(c: str, out: Path):
+        env = dict(os.environ, VERIF_OUT=str(out))
+        if in_wt:
+            env["REDUINO_REPO"] = str(wt)
+        return sh([str(VERIF / "check"), c, "--tier", "quick"], env=env)
+
+    def unchanged_ok(c: str) -> bool:
+        """A violation that is also reported without the change says nothing about the change: the check must pass on the
+        unchanged tree (same worktree, same mode) for its verdict on a changed tree to count."""
+        if c not in baseline:
+            p0 = run_check(c, tmp / f"base-{c}")
+            baseline[c] = (p0.returncode == 0 and not any(ln.startswith("VIOLATION") for ln in p0.stdout.splitlines()))
+            shutil.rmtree(tmp / f"base-{c}", ignore_errors=True)
+            if not baseline[c]:
+                print(f"WARNING: check {c} does not pass on the unchanged tree - nothing it reports counts as a catch", flush=True)
+        return baseline[c]
+
     try:
         for sid in ids:
             d = SEEDED / sid
@@ -105,6 +124,7 @@ def main() -> int:
             if sid in OBSOLETE and not meta["confirmed"]:
                 meta["obsolete"] = OBSOLETE[sid]
             checks = {}
+            clean = {c: unchanged_ok(c) for c in [prop] + EXTRA.get(sid, [])}       # (the worktree / /repo is unchanged here)
             if in_wt:
                 sh(["git", "-C", str(wt), "apply", str(d / "patch.diff")])
             else:
@@ -113,10 +133,7 @@ def main() -> int:
                 for c in [prop] + EXTRA.get(sid, []):
                     out = tmp / f"out-{sid}-{c}"
                     t0 = time.time()
-                    env = dict(os.environ, VERIF_OUT=str(out))
-                    if in_wt:
-                        env["REDUINO_REPO"] = str(wt)
-                    p = sh([str(VERIF / "check"), c, "--tier", "quick"], env=env)
+                    p = run_check(c, out)
                     vio = [ln for ln in p.stdout.splitlines() if ln.startswith("VIOLATION")]
                     first = ""
                     ls = p.stdout.splitlines()
@@ -124,7 +141,8 @@ def main() -> int:
                         if ln.startswith("VIOLATION") and i + 1 < len(ls) and ls[i + 1].startswith("  "):
                             first = ls[i + 1].strip()[:300]
                             break
-                    checks[c] = {"command": f"./check {c} --tier quick", "exit": p.returncode, "violation_lines": len(vio), "first": first, "wall_s": round(time.time() - t0, 1)}
+                    checks[c] = {"command": f"./check {c} --tier quick", "exit": p.returncode, "violation_lines": len(vio), "first": first, "wall_s": round(time.time() - t0, 1),
+                                 "passes_on_unchanged_tree": clean[c]}
             finally:
                 if in_wt:
                     sh(["git", "-C", str(wt), "checkout", "-q", "--", "."]); sh(["git", "-C", str(wt), "clean", "-fdq"])
@@ -132,7 +150,7 @@ def main() -> int:
                     sh(["git", "-C", "/repo", "checkout", "-q", "--", "."])
             meta["applied_to"] = "scratch worktree via REDUINO_REPO" if in_wt else "/repo (git apply, reverted afterwards)"
             meta["checks_with_change_applied"] = checks
-            meta["caught_by"] = sorted(c for c, v in checks.items() if v["exit"] == 1 and v["violation_lines"] > 0)
+            meta["caught_by"] = sorted(c for c, v in checks.items() if v["exit"] == 1 and v["violation_lines"] > 0 and v["passes_on_unchanged_tree"])
             meta["caught"] = prop in meta["caught_by"]
             if not (meta["confirmed"] and meta["caught"]) and "obsolete" not in meta:
                 bad += 1
